@@ -316,8 +316,8 @@ def unlaunchable_tasks(chk):
 
 def failures_do_not_exhaust_descriptors(chk):
     """"every other needed task still runs": many tasks that fail -- with a non-zero status, or because they cannot be
-    launched -- must not use up the process's file descriptors, whatever their number.  The run gets a limit of 64 open
-    files (RLIMIT_NOFILE; a few hundred failures do the same under the usual 1024).  (D36: the log files opened for a task
+    launched -- must not use up the process's file descriptors, whatever their number.  The run gets room for 40 more open
+    files than it starts with (RLIMIT_NOFILE; a few hundred failures do the same under the usual 1024).  (D36: the log files opened for a task
     whose launch failed, and the pipes of a sequential task that exited non-zero, stayed open until the end of the run --
     regressions of the repairs D33 and of the kept Popen object; the independent task then failed with EMFILE.)"""
     import os
@@ -325,8 +325,10 @@ def failures_do_not_exhaust_descriptors(chk):
     from implrun import strip_ansi
 
     def limit():
+        # 40 descriptors above what this process already holds (the forked child inherits the harness's own open files)
         import resource
-        resource.setrlimit(resource.RLIMIT_NOFILE, (64, 64))
+        top = max(int(x) for x in os.listdir("/proc/self/fd")) + 1
+        resource.setrlimit(resource.RLIMIT_NOFILE, (top + 40, top + 40))
 
     variants = {
         "60 tasks exit non-zero (sequential, teed)": ('run_experiment(name="bad%d", run="exit 3")', []),
@@ -361,8 +363,8 @@ def failures_do_not_exhaust_descriptors(chk):
         if len(implrun.index_rows(root)) != 1:
             problems.append("recorded versions %s (expected exactly the one of //:good)" % [r[0] for r in implrun.index_rows(root)])
         for msg in problems:
-            chk.violation("impl-violation", "real processes, many failing tasks under a limit of 64 open files (%s): %s" % (name, msg),
-                          {"input": {"scenario": "descriptors", "variant": name, "cond": cond[:400] + " ...", "argv": ["run", "//:all"] + extra, "rlimit_nofile": 64},
+            chk.violation("impl-violation", "real processes, many failing tasks with room for 40 more open files (%s): %s" % (name, msg),
+                          {"input": {"scenario": "descriptors", "variant": name, "cond": cond[:400] + " ...", "argv": ["run", "//:all"] + extra, "rlimit_nofile": "open descriptors at start + 40"},
                            "impl_observation": {"exit": res.code, "output": text[-1200:]}, "oracle_verdict": msg},
                           match_key={"real": "descriptors"}, size=5)
         if not problems:
